@@ -3,11 +3,12 @@
    coefficient of the conservation-form nonlinear terms vanishes for every input; hence every ETDRK order (stage programs translated
    from the source) leaves the mean unchanged; every constant equilibrium (lambda u + N(u) = 0 mode by mode) is a fixed point of
    every ETD tableau.  NOT proved here (checked on the real code by the witness oracle, see DESIGN.md): energy / enstrophy neutrality
-   of the convective terms, the mean of the single-channel non-conservative and vorticity forms (antisymmetry under k -> -k), and the
-   3D rotational form on divergence-free states. *)
+   of the convective terms, the mean of the vorticity form, and the 3D rotational form on divergence-free states.
+   The mean of the single-channel NON-conservative convection (Burgers/KdV with single_channel=True, conservative=False) IS proved:
+   with the dealiased pseudo-spectral product it is an antisymmetric sum under m -> -m (Nonlin/MeanFree.v). *)
 From Coq Require Import ZArith QArith List Bool Lia.
 From EXV Require Import Base.Scalar Base.FieldLemmas Spectral.Symbols Layout.Freq DFT.DFT1 Nonlin.Conv Nonlin.Terms ETDRK.Phi Gen.ETDRK
-  Steppers.Conservation.
+  Steppers.Conservation Nonlin.MeanFree.
 Import ListNotations.
 Local Open Scope fld_scope.
 Ltac splits := repeat match goal with |- _ /\ _ => split end.
@@ -43,6 +44,14 @@ Proof.
   - apply cahn_hilliard_dc; assumption.
 Qed.
 Print Assumptions C09_nonlinear_terms_have_zero_mean.
+
+(* the NON-conservative single-channel convection -b sum_c u d_c u, evaluated with the dealiased pseudo-spectral product on N^D points
+   with cutoff K (2K < N), has zero mean for every input state, in any dimension *)
+Theorem C09_nonconservative_single_channel_zero_mean : forall (F : FieldT) (D : nat) (N Kc : Z) (ii s b : F) (u : field F),
+  (0 < N)%Z -> (0 <= Kc)%Z -> (2 * Kc < N)%Z ->
+  conv_sc_noncons F (prod2 F D N Kc) ii s D b u (zeros D) = 0.
+Proof. intros. apply conv_sc_noncons_dc; assumption. Qed.
+Print Assumptions C09_nonconservative_single_channel_zero_mean.
 
 (* every order leaves a mode unchanged where the propagator is 1 and the nonlinear term vanishes for every input *)
 Theorem C09_mean_preserved : forall (F : FieldT) (I : Type) (k0 : I) (E Eh c1 c2 c3 c4 c5 c6 : I -> F) (N : (I -> F) -> (I -> F)),
